@@ -77,7 +77,10 @@ class Internal(Outcome):
     def __init__(self, phase, exc, tb):
         self.phase = phase
         self.cls = type(exc).__name__
-        self.message = str(exc)[:300]
+        try:
+            self.message = str(exc)[:300]
+        except Exception as e2:  # noqa: BLE001 - an exception whose message cannot be rendered
+            self.message = "<message cannot be rendered: %s>" % type(e2).__name__
         self.tb = tb
         self.detail = "%s:%s:%s" % (phase, self.cls, self.message[:80])
         # innermost nmfu.py frame: stable root-cause key
